@@ -134,11 +134,14 @@ def make_model(kind, seed):
         conns += ([own, ext] if seed % 2 else [ext, own]) + [back]
     elif kind == 'same-source':
         # two Connectivity objects from one source variable into one target variable
-        conns.append(Conn('a/li/x', 'b/o1/u', Wm(nb, na)))
         if seed % 2:
+            conns.append(Conn('a/li/x', 'b/o1/u', Wm(nb, na)))
             conns.append(Conn('a/li/x', 'b/o1/u', Wm(nb, na), edge='c1', var_map={'pre': 'source'}))
         else:
-            conns.append(Conn('a/li/x', 'b/o1/u', Wm(nb, na)))
+            # two plain matrices add up entry by entry; unsigned weights in generation order keep the sums of the
+            # fingerprints pairwise distinct (both summands grow from entry to entry)
+            conns.append(Conn('a/li/x', 'b/o1/u', Wm(nb, na, signed=False)))
+            conns.append(Conn('a/li/x', 'b/o1/u', Wm(nb, na, signed=False)))
         conns.append(Conn('b/o1/x', 'a/li/u', Wm(na, nb)))
     elif kind == 'xcoupling':
         # coupling between two different populations whose operator reads a variable of the TARGET unit; every other
